@@ -94,6 +94,8 @@ func (s *pSite) writeTargets(ins ssa.Instruction) []ssa.Value {
 // derefCell: the object a pointer kept in a cell refers to (as a write target).
 var timeOperatorRe = regexp.MustCompile(`^(Throttle|Sample|Buffer|Window|Delay|Timeout|Interval|Timer|Timestamp|TimeInterval)`)
 
+var limiterOperatorRe = regexp.MustCompile(`^(Take|GroupBy|WindowWhen|MergeAll|MergeMap|Map|Interval)`)
+
 type derefCell struct{ *ssa.Alloc }
 
 func (pc *pCtx) p3Frame(s *pSite) {
@@ -143,6 +145,11 @@ func (pc *pCtx) p3Frame(s *pSite) {
 					if hot {
 						// what a hot construct shares decides when its source is connected and released (C11, C14)
 						props = append(append([]string{}, props...), "C11", "C14")
+					}
+					if limiterOperatorRe.MatchString(s.Name) {
+						// the native rate limiter applies one value of each of these operators to every key and window: state
+						// they share is shared between keys (C20)
+						props = append(append([]string{}, props...), "C20")
 					}
 					if timeOperatorRe.MatchString(s.Name) {
 						// shared state of a throttling / sampling / buffering / delaying operator is shared timing: one
@@ -286,7 +293,11 @@ func (pc *pCtx) p3Lazy(sites []*pSite, only string) {
 							continue // own local
 						}
 						// (two pipelines built from one operator value then deliver each other's values: also a matter of C04)
-						pc.add(append(append([]string{}, props...), "C04", "C05"), fmt.Sprintf("P3/%s/apply/writes:%s", name, cellName(al)),
+						aprops := append(append([]string{}, props...), "C04", "C05")
+						if limiterOperatorRe.MatchString(name) {
+							aprops = append(aprops, "C20")
+						}
+						pc.add(aprops, fmt.Sprintf("P3/%s/apply/writes:%s", name, cellName(al)),
 							"applying an operator value to a source does not mutate state captured by the operator value (two applications are independent)", hot,
 							fmt.Sprintf("the closure %s writes captured variable %s", funcKey(fn), cellName(al)), pc.pos(ins.Pos()))
 					}
